@@ -303,6 +303,50 @@ class Taint:
                         st.append(op_place(x["a"][0])["l"])
         return seen
 
+    def cast_siblings(s, b, o):
+        """locals holding the same sign-losing cast (`e as usize`) of the same source value: a
+        comparison made on one such cast bounds the others"""
+        if op_is_const(o):
+            return set()
+        defs = prov.build_defs(b)
+        out = set()
+        mine = []
+        for l in s.copy_roots(b, o):
+            for kind, bbi, x in defs.get(l, ()):
+                if kind == "stmt" and x["r"]["k"] == "cast" and _sign_losing(x["r"]) and not op_is_const(x["r"]["o"]):
+                    mine.append((x["r"]["from"], x["r"]["ty"], s.copy_roots(b, x["r"]["o"])))
+        if not mine:
+            return out
+        for l, ds in defs.items():
+            for kind, bbi, x in ds:
+                if kind == "stmt" and not x["l"]["p"] and x["r"]["k"] == "cast" and _sign_losing(x["r"]) and not op_is_const(x["r"]["o"]):
+                    for (fr, ty, src) in mine:
+                        if x["r"]["from"] == fr and x["r"]["ty"] == ty and (s.copy_roots(b, x["r"]["o"]) & src):
+                            out.add(l)
+        return out
+
+    def comparison_of(s, b, bb_switch, dl):
+        """the comparison statement that defines the switch operand: in the switch block, or --
+        for a flag variable (`let in_range = i < n; if in_range {..}`) -- the single definition of
+        the bool local the operand copies"""
+        gb = b.bbs[bb_switch]
+        for st in gb["s"]:
+            if st["k"] == "=" and st["l"]["l"] == dl and st["r"]["k"] == "bin" and st["r"]["op"] in ("Lt", "Le", "Gt", "Ge", "Eq", "Ne"):
+                return st
+        defs = prov.build_defs(b)
+        cur = dl
+        for _ in range(4):
+            ds = defs.get(cur, ())
+            if len(ds) != 1 or ds[0][0] != "stmt":
+                return None
+            r = ds[0][2]["r"]
+            if r["k"] == "bin" and r["op"] in ("Lt", "Le", "Gt", "Ge", "Eq", "Ne"):
+                return ds[0][2]
+            if r["k"] == "use" and not op_is_const(r["o"]) and not op_place(r["o"])["p"]:
+                cur = op_place(r["o"])["l"]; continue
+            return None
+        return None
+
     def sum_locals(s, b, R):
         """locals holding an unsigned sum (+, checked_add, saturating_add) one of whose addends is in R"""
         out = set()
@@ -342,8 +386,8 @@ class Taint:
             for st in gb["s"]:
                 if st["k"] == "=" and st["l"]["l"] == dl and st["r"]["k"] == "un" and st["r"]["op"] == "Not":
                     dl = op_local(st["r"]["o"]); neg = True
-            for st in gb["s"]:
-                if st["k"] == "=" and st["l"]["l"] == dl and st["r"]["k"] == "bin" and st["r"]["op"] in ("Lt", "Le", "Gt", "Ge", "Eq", "Ne"):
+            st = s.comparison_of(b, g, dl)
+            if st is not None:
                     ra = s.copy_roots(b, st["r"]["a"]) & R; rb = s.copy_roots(b, st["r"]["b"]) & R
                     cmp_ = (st["r"]["op"], bool(ra), bool(rb))
                     other = st["r"]["b"] if ra else st["r"]["a"]
@@ -437,8 +481,12 @@ class Taint:
                     out.add("nonneg")
                 _memo[key] = out
                 return out
-        R = s.copy_roots(b, o)
+        R = s.copy_roots(b, o) | s.cast_siblings(b, o)
         out |= s.cmp_bounds(b, bb, R)
+        if any(isinstance(e, dict) and e.get("f") in s.fields for e in pl["p"]):
+            # read of a struct field that carries input: only comparisons on the read value count
+            _memo[key] = out
+            return out
         if re.match(r"^(mut )?u(8|16|32|64|128|size)$", ty) and "hi" not in out:
             # x <= x + y for unsigned values: an upper bound on a (checked) sum bounds its addends
             S = s.sum_locals(b, R)
